@@ -30,6 +30,8 @@ def parse(lines):
                 k, v = kv.split("=", 1)
                 d[k] = v
             edges[int(w[1])] = d
+        elif w[0] == "OBS":
+            ev.append(("OBS", int(w[1]), int(w[2]), w[3], int(w[4]), int(w[5])))
         elif w[0] == "CRASH":
             crash = w[1]
         elif w[0] == "EXHAUSTED":
@@ -97,12 +99,23 @@ def check(cfg, lines):
     pull_log = defaultdict(list)     # node -> [(t, item, edge)] in log order
     push_log = defaultdict(list)
     max_held = Counter()
+    occ_hi = defaultdict(lambda: [None, 0])   # edge -> [instant, highest occupancy seen in that instant]
+    units = defaultdict(list)        # splitter / combiner -> pallets (units of work) currently held
+    max_units = Counter()
     src_of_edge = {i: e["src"] for i, e in enumerate(ecfg)}
     dst_of_edge = {i: e["dst"] for i, e in enumerate(ecfg)}
     for e in ev:
         k = e[0]
         if k == "W":
             draws[e[1]][e[2]].append(e[3])
+            continue
+        if k == "OBS":
+            # end-of-instant observer of the harness: a request still waiting although the edge could serve it
+            _, t, ed, what, nq, nfree = e
+            if what == "put":
+                v("C10", "edge %d at the end of instant %s: %d space request(s) waiting while %d slot(s) are free and unreserved" % (ed, t, nq, nfree))
+            else:
+                v("C10", "edge %d at the end of instant %s: %d retrieval request(s) waiting while %d available item(s) are unreserved" % (ed, t, nq, nfree))
             continue
         t = e[1]
         if t < last_t:
@@ -126,6 +139,7 @@ def check(cfg, lines):
         elif k == "P":
             _, t, ed, i = e
             src = src_of_edge[ed]
+            occ_hi[ed] = [t, max(len(inside[ed]) + 1, occ_hi[ed][1] if occ_hi[ed][0] == t else 0)]
             if place.get(i, ("?",))[0] == "pal" and place.get(place[i][1]) == ("node", src):
                 place[i] = ("node", src)       # unpacked by the splitter that holds the pallet
                 held[src].append(i)
@@ -133,8 +147,18 @@ def check(cfg, lines):
                 v("C03", "item %d put on edge %d at %s while it is at %s" % (i, ed, t, place.get(i)))
             if i in held[src]:
                 held[src].remove(i)
+            if i in units[src]:
+                units[src].remove(i)
             if place.get(i) == ("src", src):
                 creation[i] = t
+            if not ncfg[src]["blocking"] and ncfg[src]["outsel"][0] == "FA" and ncfg[src]["kind"] != "source":
+                slack = ncfg[src]["wcap"] - 1
+                for e2 in ncfg[src]["outs"][:ncfg[src]["outs"].index(ed)]:
+                    # the choice was made earlier in this instant: e2 must have had room throughout it
+                    top = max(len(inside[e2]), occ_hi[e2][1] if occ_hi[e2][0] == t else 0)
+                    if ecfg[e2]["kind"] == "buffer" and top + slack < ecfg[e2]["cap"]:
+                        v("C15", "non-blocking node %d (FIRST_AVAILABLE) pushed item %d to out-edge %d at %s although the lower-index out-edge %d held at most %d of %d in that instant" %
+                          (src, i, ed, t, e2, top, ecfg[e2]["cap"]))
             place[i] = ("edge", ed)
             inside[ed].append(i)
             t_put[i].append((t, ed))
@@ -145,6 +169,7 @@ def check(cfg, lines):
                 v("C01", "edge %d holds %d items, capacity %d" % (ed, len(inside[ed]), ecfg[ed]["cap"]))
         elif k == "T":
             _, t, ed, i = e
+            occ_hi[ed] = [t, max(len(inside[ed]), occ_hi[ed][1] if occ_hi[ed][0] == t else 0)]
             if place.get(i) != ("edge", ed):
                 v("C03", "item %d taken from edge %d at %s while it is at %s" % (i, ed, t, place.get(i)))
             else:
@@ -165,6 +190,9 @@ def check(cfg, lines):
                 place[i] = ("node", dst)
                 held[dst].append(i)
                 max_held[dst] = max(max_held[dst], len(held[dst]))
+                if ncfg[dst]["kind"] == "splitter" or (ncfg[dst]["kind"] == "combiner" and ed == ncfg[dst]["ins"][0]):
+                    units[dst].append(i)
+                    max_units[dst] = max(max_units[dst], len(units[dst]))
             t_get[i].append((t, ed))
             got_from[i] = ed
             pulled_via[(dst, i)] = ed
@@ -179,6 +207,8 @@ def check(cfg, lines):
                 v("C03", "node %d counts the discard of item %d at %s but does not hold it (it is at %s)" % (n, i, t, place.get(i)))
             else:
                 held[n].remove(i)
+            if i in units[n]:
+                units[n].remove(i)
             place[i] = ("disc", n)
             t_disc[(n, i)] = t
             if not ncfg[n]["blocking"]:
@@ -240,6 +270,8 @@ def check(cfg, lines):
             if max_held[n] > ncfg[n]["wcap"]:
                 v("C08", "machine %d held %d items at once, work_capacity %d" % (n, max_held[n], ncfg[n]["wcap"]))
         else:
+            if kind in ("splitter", "combiner") and max_units[n] > 1:
+                v("C08", "%s %d held %d pallets (units of work) at once, it has one worker" % (kind, n, max_units[n]))
             if abs(sum(ts) - T) > 1e-6:
                 v("C17", "node %d (%s): state times %s add up to %s, elapsed %s" % (n, kind, ts, sum(ts), T))
     # ---------------- C18: time-averaged occupancy
@@ -341,6 +373,13 @@ def check(cfg, lines):
                 if nc["blocking"] and ((nc["wcap"] == 1 and rec[:len(outs_used)] != outs_used) or
                                        (Counter(outs_used) - Counter(rec))):
                     v("C15", "machine %d recorded out-edge selections %s, items were pushed to %s" % (n, rec[:12], outs_used[:12]))
+        if kind in ("splitter", "combiner") and nc["blocking"]:
+            # one worker, blocking: the recorded out-edge history is the sequence of pushes (a selection
+            # may have been recorded for a push that is still waiting at the end of the run)
+            outs_used = [nc["outs"].index(ed) for (tp, i2, ed) in push_log[n]]
+            rec = sel[n][1]
+            if rec[:len(outs_used)] != outs_used or len(rec) - len(outs_used) not in (0, 1):
+                v("C15", "%s %d recorded out-edge selections %s, items were pushed to %s" % (kind, n, rec[:12], outs_used[:12]))
         if kind == "splitter":
             delays = nc["delays"]
             for k, (t, pal, ed) in enumerate(pull_log[n]):
